@@ -117,14 +117,18 @@ def time_units(sc):
     raise ValueError(tu)
 
 
-def write_forcing_file(path: Path, sc, frames: list[int], times=None) -> None:
+def write_forcing_file(path: Path, sc, frames: list[int], times=None, file_index: int | None = None) -> None:
     """times: optional override of the ocean_time values (epoch seconds) for faults"""
     ftimes = truth.frame_times(sc)
+    if file_index is None:
+        # the file a list of frames belongs to: the one holding most of them (fault files carry a foreign frame)
+        idx = [truth.file_of_frame(sc, f) for f in frames]
+        file_index = max(set(idx), key=idx.count)
     with Dataset(path, "w", format="NETCDF4") as nc:
         _write_grid_vars(nc, sc)
         nc.createDimension("ocean_time", None)
         tv = nc.createVariable("ocean_time", "f8", ("ocean_time",))
-        packed = sc["frames"].get("storage", "f4") == "i2"
+        packed = truth.file_storage(sc, file_index)[0] == "i2"
         dt_ = "i2" if packed else "f4"
         uv = nc.createVariable("u", dt_, ("ocean_time", "s_rho", "eta_u", "xi_u"))
         vv = nc.createVariable("v", dt_, ("ocean_time", "s_rho", "eta_v", "xi_v"))
@@ -132,7 +136,7 @@ def write_forcing_file(path: Path, sc, frames: list[int], times=None) -> None:
         vv.set_auto_maskandscale(False)
         if packed:
             for var, comp in ((uv, "u"), (vv, "v")):
-                var.scale_factor = np.float32(truth.pack_scale(sc, comp))
+                var.scale_factor = np.float32(truth.pack_scale(sc, comp, file_index))
                 var.add_offset = np.float32(0.0)
         svars = {}
         spacked = bool(sc["frames"].get("scalar_packed"))
@@ -153,7 +157,7 @@ def write_forcing_file(path: Path, sc, frames: list[int], times=None) -> None:
                 tv[n] = times[n]
             else:
                 tv[n] = float((ftimes[f] - tref) / np.timedelta64(1, "s")) / per
-            a, b, _ = truth.stored_uv(sc, f)
+            a, b, _ = truth.stored_uv(sc, f, file_index)
             uv[n] = a
             vv[n] = b
             for name, var in svars.items():
@@ -488,6 +492,6 @@ def write_world(sc, d: Path) -> None:
     """grid, forcing and release files of the scenario"""
     if sc.get("world", "roms") == "roms":
         write_grid_file(d / "grid.nc", sc)
-        for fname, frames in zip(forcing_file_names(sc), frame_partition(sc)):
-            write_forcing_file(d / fname, sc, frames)
+        for k, (fname, frames) in enumerate(zip(forcing_file_names(sc), frame_partition(sc))):
+            write_forcing_file(d / fname, sc, frames, file_index=k)
     write_release_file(d / "release.rls", sc)
